@@ -5,10 +5,42 @@ package cache
 // Contracts for the deductive checker in /verif (comment-only file, no declarations).
 // The otter backend is a dependency: MemoryCache.Store/Get are assumptions for their callers.
 
+// Store: exactly one backend write; SetIfAbsent (an existing live entry is kept) iff setNX, else Set (the
+// entry is replaced). The entry stored holds a private copy of v, the key and both time stamps.
 //@ func (c *MemoryCache) Store(k []byte, storedTime time.Time, expireTime time.Time, v []byte, setNX bool)
-//@   trusted
+//@   props C08 C19 C07 C20
 //@   requires c != nil
-//@   modifies nothing
+//@   ghost nSet int = 0
+//@   ghost nNX int = 0
+//@   oncall Set: nSet = nSet + 1
+//@   oncall SetIfAbsent: nNX = nNX + 1
+//@   modifies *
+//@   ensures [C19:replace-unless-setnx] (setNX ? nNX == 1 && nSet == 0 : nSet == 1 && nNX == 0)
+//@   callsite SetIfAbsent: [C07:entry-holds-what-was-stored] entryHolds(arg2, arg1, k, v, storedTime, expireTime)
+//@   callsite Set: [C07:entry-holds-what-was-stored] entryHolds(arg2, arg1, k, v, storedTime, expireTime)
+//@ spec func entryHolds(e *cacheEntry, ks string, k []byte, v []byte, st time.Time, et time.Time) bool = e != nil && fresh(e)
+//@        && len(ks) == len(k) && forall(j, 0, len(k), ks[j] == k[j]) && e.k == ks
+//@        && e.v != nil && fresh(e.v) && len(e.v) == len(v) && bytesEq(e.v, 0, v, 0, len(v))
+//@        && e.storedTime == st && e.expireTime == et
 //@ func (c *RedisCache) AsyncStore(k []byte, storedTime time.Time, expireTime time.Time, v []byte, setNX bool)
 //@   trusted
 //@   modifies nothing
+
+// A recycled entry is exclusively owned by the caller (sync.Pool hands an object to one Get at a time).
+//@ func newCacheEntry() (e *cacheEntry)
+//@   trusted
+//@   modifies nothing
+//@   ensures e != nil && fresh(e)
+
+// Get: a hit hands out a private copy of the stored value, and only when the entry found still carries
+// exactly the requested key (an entry that was released or reused for another key is a miss).
+//@ func (c *MemoryCache) Get(k []byte) (v pool.Buffer, storedTime time.Time, expireTime time.Time)
+//@   props C07 C20
+//@   requires c != nil && c.getTotal != nil && c.hitTotal != nil
+//@   ghost ge *cacheEntry = nil
+//@   aftercall Get: ge = ret0
+//@   assumecall Get: ret1 ==> ret0 != nil
+//@   modifies *
+//@   ensures [C20:private-copy] v != nil ==> fresh(v)
+//@   ensures [C07:key-rechecked] v != nil ==> ge != nil && len(ge.k) == len(k) && forall(j, 0, len(k), ge.k[j] == k[j])
+//@   ensures [C07:value-of-that-entry] v != nil ==> ge.v != nil && len(v) == len(ge.v) && bytesEq(v, 0, ge.v, 0, len(v)) && storedTime == ge.storedTime && expireTime == ge.expireTime
